@@ -751,8 +751,10 @@ func c16Api(f []string) vResult {
 			return s != lost && s != nil && !s.IsClosed() && s.IsHealthy()
 		})
 		dbgRef("after heal")
-		time.Sleep(1500 * time.Millisecond)
-		dbgRef("1.5 s after heal")
+		if os.Getenv("VERIF_DEBUG") != "" {
+			time.Sleep(1500 * time.Millisecond)
+			dbgRef("1.5 s after heal")
+		}
 		if !healed {
 			setFail("not-healed", "the session of pool 0 was lost while the server is reachable; 10 s later (rebuild interval 50 ms) the pool still has no working session")
 		}
@@ -779,8 +781,10 @@ func c16Api(f []string) vResult {
 	}
 	dbgRef("before Close")
 	sm.Close()
-	time.Sleep(1500 * time.Millisecond)
-	dbgRef("1.5 s after sm.Close")
+	if os.Getenv("VERIF_DEBUG") != "" {
+		time.Sleep(1500 * time.Millisecond)
+		dbgRef("1.5 s after sm.Close")
+	}
 	ln.Close()
 	// S (C14/C17): closing the manager and the listener releases everything
 	for t0 := time.Now(); time.Since(t0) < 8*time.Second; {
@@ -820,7 +824,187 @@ func c16Api(f []string) vResult {
 	return res
 }
 
+type c16CountCB struct {
+	c16EchoCB
+	n *int64
+}
+
+func (c c16CountCB) OnNewStream(s *Stream) {
+	atomic.AddInt64(c.n, 1)
+	c.c16EchoCB.OnNewStream(s)
+}
+
+// apihot <file|memfd> <sessions>: a real hot restart: old listener, manager, traffic, new listener on the same address,
+// HotRestart(epoch), old listener closed, traffic again (now served by the new listener), everything closed
+func c16ApiHot(f []string) vResult {
+	res := vResult{noModel: true, out: []string{"done"}}
+	setFail := func(k, w string) {
+		if res.specFail == "" {
+			res.specFail, res.key = w, k
+		}
+	}
+	mt := MemMapTypeDevShmFile
+	if f[1] == "memfd" {
+		mt = MemMapTypeMemFd
+	}
+	nsess := vAtoi(f[2])
+	if nsess < 1 || nsess > 3 {
+		res.out = []string{"bad-op"}
+		return res
+	}
+	internalLogger = &logger{"", io.Discard, 3}
+	if os.Getenv("VERIF_DEBUG") != "" {
+		internalLogger = &logger{"", os.Stderr, 3}
+		level = levelInfo
+		defer func() { level = levelNoPrint }()
+	}
+	n := atomic.AddUint64(&c16ApiSeq, 1)
+	prefix := fmt.Sprintf("/dev/shm/verif_apihot_%d_%d", os.Getpid(), n)
+	path := fmt.Sprintf("/tmp/verif_apihot_%d_%d.sock", os.Getpid(), n)
+	c12WarmOnce.Do(func() {
+		w := &c12Run{tags: map[string]bool{}}
+		w.scenario([]string{"pair", "file"})
+		w.scenario([]string{"pair", "memfd"})
+	})
+	runtime.GC()
+	fd0, maps0 := c12CountFds(), c12CountMaps(prefix)
+	var servedOld, servedNew int64
+	mkListener := func(cnt *int64, tag string) *Listener {
+		lcfg := &ListenerConfig{Config: c12Config(prefix+"_srv_"+tag, mt), Network: "unix", ListenPath: path}
+		if os.Getenv("VERIF_DEBUG") != "" {
+			lcfg.Config.LogOutput = os.Stderr
+		}
+		ln, err := NewListener(c16CountCB{n: cnt}, lcfg)
+		if err != nil {
+			setFail("setup", "NewListener: "+err.Error())
+			return nil
+		}
+		ln.SetUnlinkOnClose(false)
+		go ln.Run()
+		return ln
+	}
+	old := mkListener(&servedOld, "old")
+	if old == nil {
+		return res
+	}
+	scfg := DefaultSessionManagerConfig()
+	scfg.Config = c12Config(prefix, mt)
+	scfg.Network, scfg.Address = "unix", path
+	scfg.SessionNum = nsess
+	sm, err := NewSessionManager(scfg)
+	if err != nil {
+		old.Close()
+		setFail("api-call-fails", "NewSessionManager against a running listener: "+err.Error())
+		return res
+	}
+	echo := func(tag string) bool {
+		st, err := sm.GetStream()
+		if err != nil {
+			setFail("api-call-fails", tag+": GetStream: "+err.Error())
+			return false
+		}
+		body := []byte(fmt.Sprintf("%s-payload-%d", tag, n))
+		msg := append([]byte{byte(len(body)), byte(len(body) >> 8), 0, 0}, body...)
+		st.SetDeadline(time.Now().Add(8 * time.Second))
+		st.BufferWriter().WriteBytes(msg)
+		if err := st.Flush(false); err != nil {
+			setFail("api-call-fails", tag+": Flush: "+err.Error())
+			return false
+		}
+		got, err := st.BufferReader().ReadBytes(len(msg))
+		if err != nil {
+			setFail("api-call-fails", tag+": reading the echo: "+err.Error())
+			return false
+		}
+		if !bytes.Equal(got, msg) {
+			setFail("api-echo-mismatch", fmt.Sprintf("%s: sent %q, the echo is %q", tag, msg, got))
+		}
+		st.BufferReader().ReleasePreviousRead()
+		sm.PutBack(st)
+		return true
+	}
+	ok := echo("before-restart")
+	nw := mkListener(&servedNew, "new")
+	if ok && nw != nil {
+		const epoch = 7
+		// Listener.Run registers a session only after newSession (the whole server-side handshake) has returned, so the
+		// client can be through NewSessionManager a moment before the listener knows all its sessions; a HotRestart in
+		// that window legitimately takes the partial / time-out path.  This scenario is about the complete hand-over.
+		c19WaitFor(4*time.Second, func() bool {
+			old.sessions.sessionMu.Lock()
+			defer old.sessions.sessionMu.Unlock()
+			return len(old.sessions.data) == nsess
+		})
+		if err := old.HotRestart(epoch); err != nil {
+			setFail("api-call-fails", "Listener.HotRestart: "+err.Error())
+		} else {
+			// S (C16): the hand-over completes - every client session is moved, nobody is left in the restart state
+			if !c19WaitFor(12*time.Second, func() bool { return old.IsHotRestartDone() }) {
+				setFail("hot-restart-not-done", "12 s after HotRestart the old listener still does not report the hand-over as done")
+			}
+			moved := c19WaitFor(12*time.Second, func() bool {
+				sm.RLock()
+				defer sm.RUnlock()
+				if sm.state == hotRestartState {
+					return false
+				}
+				for _, p := range sm.pools {
+					s := p.Session()
+					if s == nil || s.epochID != epoch || s.IsClosed() || !s.IsHealthy() {
+						return false
+					}
+				}
+				return true
+			})
+			if !moved {
+				desc := fmt.Sprintf("manager state=%d epoch=%d;", sm.state, sm.epoch)
+				for i, p := range sm.pools {
+					if ps := p.Session(); ps != nil {
+						desc += fmt.Sprintf(" pool %d: epoch=%d closed=%v healthy=%v;", i, ps.epochID, ps.IsClosed(), ps.IsHealthy())
+					}
+				}
+				old.sessions.sessionMu.Lock()
+				desc += fmt.Sprintf(" old listener tracks %d sessions:", len(old.sessions.data))
+				for ss := range old.sessions.data {
+					desc += fmt.Sprintf(" [state=%d hs=%v closed=%v]", ss.state, ss.handshakeDone, ss.IsClosed())
+				}
+				old.sessions.sessionMu.Unlock()
+				setFail("manager-stuck-in-hot-restart", "12 s after the server announced epoch 7 the manager is still in the restart state or a pool still holds a session of the old epoch / a dead session: "+desc)
+			}
+			old.Close()
+			before := atomic.LoadInt64(&servedNew)
+			if echo("after-restart") && atomic.LoadInt64(&servedNew) == before && atomic.LoadInt64(&servedOld) > 1 {
+				setFail("served-by-old-server", "after the hand-over a new stream was still served by the old listener")
+			}
+		}
+	}
+	sm.Close()
+	old.Close()
+	if nw != nil {
+		nw.Close()
+	}
+	for t0 := time.Now(); time.Since(t0) < 8*time.Second; {
+		runtime.GC()
+		if c12CountFds() <= fd0 && c12CountMaps(prefix) <= maps0 && c12CountFiles(prefix) == 0 {
+			break
+		}
+		time.Sleep(5 * time.Millisecond)
+	}
+	if fd1, m1, fl := c12CountFds(), c12CountMaps(prefix), c12CountFiles(prefix); fd1 > fd0 || m1 > maps0 || fl > 0 {
+		left, _ := filepath.Glob(prefix + "*")
+		setFail("close-leaves-resources", fmt.Sprintf("manager and both listeners closed, yet %d descriptor(s) more than before, %d mapping(s) and %d file(s) remain: %v", fd1-fd0, m1-maps0, fl, left))
+	}
+	os.Remove(path)
+	res.tags = []string{"api-level-hot-restart"}
+	return res
+}
+
 func c16Exec(ops []string) vResult {
+	if len(ops) == 1 && strings.HasPrefix(ops[0], "apihot ") {
+		if f := vFields(ops[0]); len(f) == 3 {
+			return c16ApiHot(f)
+		}
+	}
 	if len(ops) == 1 && strings.HasPrefix(ops[0], "api ") {
 		if f := vFields(ops[0]); len(f) == 4 {
 			return c16Api(f)
@@ -883,6 +1067,9 @@ func c16Exec(ops []string) vResult {
 }
 
 func c16Gen(r *rand.Rand, tier string, idx int, prop string) []string {
+	if prop == "C16" && idx%300 == 133 {
+		return []string{fmt.Sprintf("apihot %s %d", []string{"file", "memfd"}[r.Intn(2)], 1+r.Intn(3))}
+	}
 	if prop == "C17" && idx%200 == 77 {
 		return []string{fmt.Sprintf("api %s %d %d", []string{"file", "memfd"}[r.Intn(2)], 1+r.Intn(3), 1+r.Intn(4))}
 	}
